@@ -507,6 +507,7 @@ func c08(r *Report, s *Sem) {
 			}
 		}})
 	r.Check(R6, "func "+fnName(wrapper)+" / closes when it rejects a reply", p.instrPos(readCall), bad == 0, fmt.Sprintf("%d error exit(s) after a successful read without Transport.Close", bad))
+	r.Import(s, "C13", "R9", "R7", "the session hand-off queue of a channel has constant capacity ≥ 1 whatever buffer size is configured: with an unbuffered queue a session envelope the server sends on its own after 'established' parks the client's receiver before it can fold the state or close the transport, and the client keeps reporting an established channel", 1)
 }
 
 func retIsError(ret *ssa.Return) bool {
